@@ -30,8 +30,23 @@ first_missed = {  # seeds the checks missed (or reported without a concrete inpu
  'C14-7': 'MISSED by C14 as it stood (no UpdateStageConfig moved a stage across a neighbour); stage-update operations with the list_i <-> root_i pairing kept in the harness ledger, detected since',
  'C14-8': 'MISSED by C14 as it stood (no mint named stage Some(0) against a stage-less leaf or vice versa); stage argument x leaf format cross cases on every Merkle minter variant, detected since',
  'C19-8': 'MISSED by C19 as it stood (no open edition with an end time in the C19 worlds); every candidate anchor +/- offset probed at creation and on update against the harness ledger, detected since',
+ # fifth round
+ 'C03-9': 'MISSED by C03 as it stood (no whitelist admin operation inside its histories; C11/C13 caught it); admin operations + ledger of limits, caps and allowances, detected since',
+ 'C03-10': 'MISSED by C03 as it stood; UpdateStageConfig with every subset of its optional fields, the ledger keeps omitted values, detected since',
+ 'C04-10': 'MISSED by C04 as it stood (C11 caught it); instantiate shapes with more / fewer member lists than stages, surplus lists belong to no stage in the ledger, detected since',
+ 'C05-10': 'MISSED by every check as they stood (no world had a payment address different from the creator); every optional / secondary address is its own principal and a caller role, detected since',
+ 'C06-10': 'MISSED by C06 as it stood (needs the factory to hold stranded coins); prior contract balance as a dimension of every call-site case, contract-balance-used monitor, detected since',
+ 'C07-9': 'MISSED by C07 as it stood (C08 caught it); governance minimum amount {0,1,usual} x denom as a full dimension, created-in-foreign-denom monitor and theorem, detected since',
+ 'C08-9': 'MISSED by C08 as it stood (every proposal supplied every field; C18 caught it); proposals that omit fields, the ledger keeps the omitted values, detected since',
+ 'C08-10': 'MISSED by C08 as it stood; update probes after governance lowered the maximum below the limit the minter holds (descending), detected since',
+ 'C10-9': 'reported by C10 as it stood only in the no-failing-input-found form; initial-royalty grid on all five variants and raise monitors judged against the ledger entry (a 0 % entry is an entry), concrete replay since',
+ 'C13-10': 'reported by C13 as it stood only in the no-failing-input-found form; per-stage answers judged against a ledger of stages with their member lists, concrete replay since',
+ 'C14-9': 'MISSED by C14 as it stood (roots were always given in one spelling); root spellings at instantiate as a dimension, detected since',
+ 'C15-10': 'MISSED by C15 as it stood (splits was never instantiated with attached funds); funds at instantiate on both paths and a conservation monitor from instantiate on, detected since',
+ 'C18-9': 'MISSED by C18 as it stood (C06 and C08 caught it); old-vs-new discriminating observation probes after every accepted UpdateParams, detected since',
+ 'C20-10': 'MISSED by C20 as it stood (the world always supplied tree URIs); optional instantiate fields present / absent / empty as a dimension, appearing keys count as changes, detected since',
 }
-for d in sorted(glob.glob(root + '/C*-[345678]')):
+for d in sorted(glob.glob(root + '/C*-[3-9]')) + sorted(glob.glob(root + '/C*-10')):
     sid = os.path.basename(d); prop = sid.split('-')[0]
     readme = open(d + '/README.md').read()
     title = readme.splitlines()[0].lstrip('# ').strip()
